@@ -16,6 +16,21 @@ from the featx fact base into exact multivariate polynomials with rational coeff
   * control flow must fold: loop bounds and branch conditions have to be constants, otherwise
     NotClosedForm is raised and the caller reports the function as 'not covered' / analysis
     incomplete.  Nothing is guessed.
+
+Spellings that are evaluated as the construct they stand for (round 5, behaviour-preserving refactorings):
+  * pointer cursors (class Ptr): `T* p = &a[k]` / `p = a` / `++p` / `p += n` / `*p` / `p[i]` / `p->m` / `p - q` /
+    `p != q` address the cells of the array `a`, i.e. a cursor loop is the index loop over the same cells;
+  * for / while / do-while alike, `switch` on a constant selector as the if-chain over its labels (fall-through,
+    break), range-for over built-in arrays of constant extent, local (non-generic) lambdas inlined at their call
+    with the defining frame's variables visible, empty statements;
+  * std::fill / fill_n / copy / copy_n / copy_backward / iota on pointer ranges of constant extent, std::swap of
+    scalars, std::min / std::max of constants;
+  * AbsSymEx: variables advancing together (`++j, ++p` in one increment clause, top-level `++k;` of a while body)
+    are ONE induction variable, loop conditions are normalised (`n > k` = `k < n`, `k != n` of an up-counting
+    variable = `k < n`, cursors compared by offset), scalars passed by value to calls that are not inlined are
+    passed as the value they have at the call;
+  * PredEx: the accepted set of a bool predicate by enumeration of its execution paths (early returns, nested ifs,
+    continue, ?:, bool locals / accumulators, helper predicates, |x| comparisons).
 """
 from fractions import Fraction
 import re
@@ -1122,6 +1137,14 @@ class SymEx:
             # calls that are not inlined see the pointee of a pointer cursor (the convention for pointers whose
             # formation was not observed)
             args = [self.deref(self.eval(a, env, fn)) for a in args_n]
+            # scalars passed by value are passed as the value they have NOW (the variable may be advanced later, e.g. `++k`
+            # at the end of a while body)
+            pts = n.get("pt") or []
+            if len(pts) == len(args):
+                for i, (a, t) in enumerate(zip(args, pts)):
+                    ty = fn.type(t)
+                    if isinstance(a, Loc) and not is_ref_type(ty) and is_scalar_type(ty) and isinstance(self.store.get(a.key()), Poly):
+                        args[i] = self.store[a.key()]
             # implicit (body-less) copy assignment of aggregates
             if callee.endswith("::operator=") and this_loc is not None and len(args) == 1 and isinstance(args[0], Loc):
                 self.copy_agg(this_loc, args[0], n.get("l"))
@@ -1440,20 +1463,47 @@ class AbsSymEx(SymEx):
         cond = n.get("c")
         rec = {"line": n.get("l"), "fn": fn.full, "vars": [], "cond": None}
         # havoc the variables the increment modifies (the loop variables)
+        # variables that advance together (each incremented exactly once per iteration, unconditionally): one induction
+        # variable, the others are its value shifted by the difference of the initial values (`++j, ++p`: p = p0 + (j - j0))
+        co = self._co_advancing(n)
+        have = {vn.get("d") for vn in loopvar_nodes}
+        if have & co:
+            for part in (n.get("inc"), n.get("body")):
+                for x in walk_nodes(part):
+                    if x.get("k") == "Ref" and x.get("d") in co and x.get("d") not in have and x.get("dk") in ("local", "param"):
+                        have.add(x.get("d"))
+                        loopvar_nodes = list(loopvar_nodes) + [x]
+        cond_refs = {x.get("d") for x in walk_nodes(cond) if x.get("k") == "Ref"} if cond is not None else set()
+        loopvar_nodes = sorted(loopvar_nodes, key=lambda vn: 0 if (vn.get("d") in co and vn.get("d") in cond_refs) else 1)
+        primary = None      # (symbol, initial value) of the induction variable of the co-advancing group
         for vn in loopvar_nodes:
             lv = self.eval(vn, env, fn)
             if isinstance(lv, Loc):
                 pv = self.ptr_of(lv)
-                s = self.fresh(vn.get("n", "it"))
                 if pv is not None and pv.off is not None:
+                    init = pv.off
+                else:
+                    pv = None
+                    try:
+                        init = self.read(lv)
+                    except NotClosedForm:
+                        init = None
+                if vn.get("d") in co and isinstance(init, Poly):
+                    if primary is None:
+                        primary = (None, init)      # symbol filled in below
+                    else:
+                        val = init + (Poly.sym(primary[0]) - primary[1])
+                        self.store[lv.key()] = Ptr(pv.base, val) if pv is not None else val
+                        rec.setdefault("derived", []).append({"loc": lv, "value": val})
+                        continue
+                s = self.fresh(vn.get("n", "it"))
+                if primary is not None and primary[0] is None:
+                    primary = (s, primary[1])
+                if pv is not None:
                     # a pointer cursor advancing through one array = the index loop over its offset
                     self.store[lv.key()] = Ptr(pv.base, Poly.sym(s))
-                    rec["vars"].append({"sym": s, "init": pv.off, "loc": lv, "array": pv.base, "dir": self._step_dir(n, vn.get("d"))})
+                    rec["vars"].append({"sym": s, "init": init, "loc": lv, "array": pv.base, "dir": self._step_dir(n, vn.get("d"))})
                     continue
-                try:
-                    init = self.read(lv)
-                except NotClosedForm:
-                    init = None
                 self.store[lv.key()] = Poly.sym(s)
                 rec["vars"].append({"sym": s, "init": init, "loc": lv, "dir": self._step_dir(n, vn.get("d"))})
         if cond is not None and cond.get("k") == "Bin":
@@ -1469,6 +1519,52 @@ class AbsSymEx(SymEx):
             pass
         finally:
             self.loop_stack.pop()
+
+    @staticmethod
+    def _co_advancing(n):
+        """declaration ids of the variables that are incremented by one exactly once per iteration and unconditionally:
+        in the increment clause of a for loop, or by a top-level `++x;` statement of the body, and nowhere else"""
+        def incs(part, top_only):
+            out = []
+            if part is None:
+                return out
+            if top_only:
+                items = (part.get("s") or []) if part.get("k") == "Block" else [part]
+            else:
+                items, st = [], [part]
+                while st:
+                    x = st.pop()
+                    if x.get("k") == "Bin" and x.get("op") == ",":
+                        st.extend([x["lhs"], x["rhs"]])
+                    else:
+                        items.append(x)
+            for x in items:
+                if not isinstance(x, dict):
+                    continue
+                t = None
+                if x.get("k") == "Un" and x.get("op") == "++":
+                    t = x.get("e")
+                elif x.get("k") == "Assign" and x.get("op") == "+=" and (x.get("rhs") or {}).get("k") == "Int" and int(x["rhs"].get("v", 0)) == 1:
+                    t = x.get("lhs")
+                if t is not None and t.get("k") == "Ref":
+                    out.append(t.get("d"))
+            return out
+        cand = incs(n.get("inc"), False) + incs(n.get("body"), True)
+        # every modification anywhere in the loop
+        mods = {}
+        for part in (n.get("inc"), n.get("c"), n.get("body")):
+            for x in walk_nodes(part):
+                t = None
+                if x.get("k") == "Un" and x.get("op") in ("++", "--"):
+                    t = x.get("e")
+                elif x.get("k") == "Assign":
+                    t = x.get("lhs")
+                if t is not None and t.get("k") == "Ref":
+                    mods[t.get("d")] = mods.get(t.get("d"), 0) + 1
+        # a `continue` skips the top-level increments of the body
+        has_continue = any(x.get("k") == "Continue" for x in walk_nodes(n.get("body")))
+        body_incs = set(incs(n.get("body"), True))
+        return {d for d in cand if cand.count(d) == 1 and mods.get(d) == 1 and not (has_continue and d in body_incs)}
 
     @staticmethod
     def _step_dir(n, d):
